@@ -108,7 +108,14 @@ def exc_info(ex):
     if ex is None:
         return None
     cause = ex.__cause__
-    return {'type': type(ex).__name__, 'str': str(ex)[:300],
+    where = None
+    tb = ex.__traceback__
+    while tb is not None:
+        fn = tb.tb_frame.f_code.co_filename
+        if '/labtech/' in fn:
+            where = f"{fn.rsplit('/labtech/', 1)[1]}:{tb.tb_frame.f_code.co_name}"
+        tb = tb.tb_next
+    return {'type': type(ex).__name__, 'where': where, 'str': str(ex)[:300],
             'cause': (type(cause).__name__ if cause is not None else None),
             'cause_str': (str(cause)[:200] if cause is not None else None)}
 
